@@ -52,6 +52,8 @@ pub struct StartupOpts {
     pub password: Option<String>,
     pub params: Vec<(String, String)>,
     pub tls: bool,
+    /// libpq's sslmode=prefer: send SSLRequest first, continue in plain text when answered 'N'
+    pub tls_prefer: bool,
 }
 
 impl StartupOpts {
@@ -62,7 +64,12 @@ impl StartupOpts {
             password: Some(password.into()),
             params: vec![],
             tls: false,
+            tls_prefer: false,
         }
+    }
+    pub fn prefer_tls(mut self, on: bool) -> StartupOpts {
+        self.tls_prefer = on;
+        self
     }
     pub fn app(mut self, name: &str) -> StartupOpts {
         self.params.push(("application_name".into(), name.into()));
@@ -193,24 +200,27 @@ impl Conn {
         let mut tcp = tcp_connect(addr, 5000)?;
         tcp.set_read_timeout(Some(Duration::from_millis(timeout_ms)))
             .ok();
-        let stream = if opts.tls {
+        let stream = if opts.tls || opts.tls_prefer {
             tcp.write_all(&proto::ssl_request())
                 .map_err(|e| ConnErr::Io(e.to_string()))?;
             let mut b = [0u8; 1];
             tcp.read_exact(&mut b)
                 .map_err(|e| ConnErr::Io(format!("ssl answer: {}", e)))?;
-            if b[0] != b'S' {
+            if b[0] == b'N' && opts.tls_prefer && !opts.tls {
+                Stream::Plain(tcp)
+            } else if b[0] != b'S' {
                 return Err(ConnErr::Protocol(format!(
                     "server refused TLS: {:?}",
                     b[0] as char
                 )));
+            } else {
+                let conn = rustls::ClientConnection::new(
+                    tls_client_config(),
+                    rustls::ServerName::try_from("localhost").unwrap(),
+                )
+                .map_err(|e| ConnErr::Io(e.to_string()))?;
+                Stream::Tls(Box::new(rustls::StreamOwned::new(conn, tcp)))
             }
-            let conn = rustls::ClientConnection::new(
-                tls_client_config(),
-                rustls::ServerName::try_from("localhost").unwrap(),
-            )
-            .map_err(|e| ConnErr::Io(e.to_string()))?;
-            Stream::Tls(Box::new(rustls::StreamOwned::new(conn, tcp)))
         } else {
             Stream::Plain(tcp)
         };
